@@ -397,6 +397,48 @@ class ZoneFn:
                 return pzf.upper_bound((es, 0), bi)
         return None
 
+    def _window_len(self, root):
+        """the element parameter of a closure handed to an iterator method over `xs.windows(k)` / `xs.chunks_exact(k)` with a literal k is a
+        slice of exactly k elements"""
+        ctx = self.closure_ctx()
+        if ctx is None or ctx[3] is None:
+            return None
+        pzf, cb, caps, (bi, t) = ctx
+        cal = t.get('callee') or ''
+        if not cal.startswith('std::iter::Iterator::') or not t['args']:
+            return None
+        want = 3 if cal.endswith(('::fold', '::try_fold')) else 2
+        if root != want:
+            return None
+        op = t['args'][0]
+        for _ in range(8):
+            if op['k'] not in ('copy', 'move') or any(q['k'] != 'deref' for q in op['pl'].get('p', [])):
+                return None
+            d = pzf.single_def(op['pl']['l'])
+            if d is None:
+                return None
+            if d[0] == 'assign' and not d[2]['dst'].get('p'):
+                rv = d[2]['rv']
+                if rv['k'] == 'use' and rv['op']['k'] in ('copy', 'move'):
+                    op = rv['op']
+                    continue
+                if rv['k'] in ('ref', 'rawptr'):
+                    op = {'k': 'copy', 'pl': rv['pl']}
+                    continue
+                return None
+            if d[0] != 'call' or not d[2]['args']:
+                return None
+            c2 = d[2].get('callee') or ''
+            if c2 in ('std::iter::IntoIterator::into_iter', 'std::iter::Iterator::by_ref', 'std::iter::Iterator::rev'):
+                op = d[2]['args'][0]
+                continue
+            if c2.endswith(('<impl [T]>::windows', '<impl [T]>::chunks_exact', '<impl [T]>::rchunks_exact')) and len(d[2]['args']) == 2:
+                kt = pzf.term_op(d[2]['args'][1])
+                if kt is not None and kt[0] is None and kt[1] >= 1:
+                    return kt[1]
+            return None
+        return None
+
     def closure_elem_sym(self, sym):
         """`elem:<container>` (in the creating body's terms) a closure's element symbol stands for: `p2` for map / any / all / find ...,
         `p3` for fold (after the accumulator), `p<k>.<n>` for the n-th component of a zip element"""
@@ -978,6 +1020,8 @@ class ZoneFn:
             if a is not None:
                 self.global_facts.append((bi, r, a))
                 self.sym_le[r[0]] = a
+            if a is not None and b is not None:
+                self.za.diffs.setdefault((self.body.path, r[0]), (a, b))
             return r
         if base == 'Mul' and a is not None and b is not None and a[0] is None and b[0] is None:
             return (None, a[1] * b[1])
@@ -1090,6 +1134,8 @@ class ZoneFn:
                     if a is not None:
                         self.global_facts.append((('payload', l), res, a))
                         self.sym_le[res[0]] = a
+                    if a is not None and b is not None:
+                        self.za.diffs.setdefault((self.body.path, res[0]), (a, b))
             elif cal.endswith('::checked_add'):
                 a, b = (chained[1], chained[2]) if chained is not None else (self.term_op(t['args'][0]), self.term_op(t['args'][1]))
                 if a is not None and b is not None and (a[0] is None or b[0] is None):
@@ -1323,6 +1369,10 @@ class ZoneFn:
                 return fixed
             if self.fd.is_param(root) and root in self.mut_roots and self.body.local_ty(root).startswith('&mut'):
                 return None
+            if self.body.kind == 'Closure' and self.fd.is_param(root) and not path:
+                w = self._window_len(root)
+                if w is not None:
+                    return (None, w)
             sym = 'len:%s%s' % (self.body.local_name(root) if self.fd.is_param(root) else '_%d' % root,
                                 ''.join('.' + x for x in path))
             self.sym_bound.setdefault(sym, IMAX // elem_size_of(ty))
